@@ -128,6 +128,7 @@ type Clause struct {
 type LoopSpec struct {
 	Ord        int
 	Key, Val   string
+	Iter       string // map-range loops: alias of the iterator (for seen(it, k))
 	Carried    []string
 	Invariants []Clause
 	Line       int
@@ -165,6 +166,7 @@ type Lemma struct {
 	Line  int
 	File  string
 	Uses  []string // axioms are always in scope; lemmas cited here are assumed
+	Induction string // variable to do induction on ("" = direct proof)
 }
 
 type FuncContract struct {
@@ -191,6 +193,7 @@ type FuncContract struct {
 	Ghost     []string
 	Locals    map[string]string // alias -> source variable name
 	AbsFloat  bool
+	Cites     []string // lemmas (proved separately) assumed at every program point of this function
 }
 
 func (c *FuncContract) Key() string {
@@ -294,7 +297,7 @@ func (p *parser) ident() (string, error) {
 }
 
 var itemKeywords = map[string]bool{"strmap": true, "spec": true, "axiom": true, "lemma": true, "func": true, "external": true, "iface": true, "table": true, "schema": true}
-var clauseKeywords = map[string]bool{"requires": true, "ensures": true, "modifies": true, "loop": true, "invariant": true, "pure": true, "trusted": true, "props": true, "use": true, "bounded": true, "assumes": true, "allowpanic": true, "nobody": true, "uses": true, "keys": true, "sem": true, "local": true, "absfloat": true}
+var clauseKeywords = map[string]bool{"requires": true, "ensures": true, "modifies": true, "loop": true, "invariant": true, "pure": true, "trusted": true, "props": true, "use": true, "bounded": true, "assumes": true, "allowpanic": true, "nobody": true, "uses": true, "keys": true, "sem": true, "local": true, "absfloat": true, "cite": true}
 
 func parseSpecFile(pkg, file, src string) (*SpecFile, error) {
 	lines := extractSpecLines(src)
@@ -345,6 +348,11 @@ func parseSpecFile(pkg, file, src string) (*SpecFile, error) {
 					}
 				} else if p.acceptKw("uses") {
 					l.Uses, err = p.identList()
+					if err != nil {
+						return nil, err
+					}
+				} else if p.acceptKw("induction") {
+					l.Induction, err = p.ident()
 					if err != nil {
 						return nil, err
 					}
@@ -735,6 +743,12 @@ func (p *parser) parseContract(sf *SpecFile) (*FuncContract, error) {
 			c.Locals[alias] = src
 		case "absfloat":
 			c.AbsFloat = true
+		case "cite":
+			ids, err := p.identList()
+			if err != nil {
+				return nil, err
+			}
+			c.Cites = append(c.Cites, ids...)
 		case "pure":
 			c.Pure = true
 		case "trusted":
@@ -824,6 +838,8 @@ func (p *parser) parseContract(sf *SpecFile) (*FuncContract, error) {
 						curLoop.Key, err = p.ident()
 					case "val":
 						curLoop.Val, err = p.ident()
+					case "iter":
+						curLoop.Iter, err = p.ident()
 					case "carried":
 						curLoop.Carried, err = p.identList()
 					default:
@@ -929,7 +945,7 @@ func instantiateSchema(c *FuncContract, sch *Schema, args map[string]Expr) {
 		}
 	}
 	for ord, l := range s.Loops {
-		nl := &LoopSpec{Ord: ord, Key: l.Key, Val: l.Val, Carried: l.Carried, Line: l.Line}
+		nl := &LoopSpec{Ord: ord, Key: l.Key, Val: l.Val, Iter: l.Iter, Carried: l.Carried, Line: l.Line}
 		for _, inv := range l.Invariants {
 			nl.Invariants = append(nl.Invariants, sub(inv))
 		}
